@@ -24,11 +24,18 @@ fn op(r: &Rec) -> Vec<Vec<i128>> {
     let code = r.code;
     let vz = |s: Sh, d: &Vec<i128>| mk_vec_znx(s.n, s.cols, s.max, s.size, &v64(d));
     with_be!(be, BE, {
-        let nmod = if code == 9021 { sa.n } else { rs.n };
+        let nmod = if code == 9021 || code == 9023 { sa.n } else { rs.n };
         let m = module::<BE>(nmod.max(1));
         let fill = if code == 9019 { ex(1) as i64 } else { 0x3c3c3c3c3c3c3c3c_u64 as i64 };
         let mut sc = scratch_filled::<BE>(8 * nmod.max(8) * 4, fill);
         let s = sc.borrow();
+        if code == 9023 {
+            // split into parts of different limb counts (ex(i) = active size of part i, capacity rs.max)
+            let a = vz(sa, &r.vs[0]);
+            let mut parts: Vec<_> = r.vs[1..].iter().enumerate().map(|(i, d)| mk_vec_znx(rs.n, rs.cols, rs.max, ex(i) as usize, &v64(d))).collect();
+            m.vec_znx_split_ring(&mut parts, rs.col, &a, sa.col, s);
+            return parts.iter().map(|x| to128(&dump_vec_znx(x))).collect();
+        }
         if code == 9021 {
             let a = vz(sa, &r.vs[0]);
             let mut parts: Vec<_> = r.vs[1..].iter().map(|d| vz(rs, d)).collect();
@@ -36,6 +43,11 @@ fn op(r: &Rec) -> Vec<Vec<i128>> {
             return parts.iter().map(|x| to128(&dump_vec_znx(x))).collect();
         }
         let mut res = vz(rs, &r.vs[0]);
+        if code == 9024 {
+            let parts: Vec<_> = r.vs[1..].iter().enumerate().map(|(i, d)| mk_vec_znx(sa.n, sa.cols, sa.max, ex(i) as usize, &v64(d))).collect();
+            m.vec_znx_merge_rings(&mut res, rs.col, &parts, sa.col, s);
+            return vec![to128(&dump_vec_znx(&res))];
+        }
         if code == 9022 {
             let parts: Vec<_> = r.vs[1..].iter().map(|d| vz(sa, d)).collect();
             m.vec_znx_merge_rings(&mut res, rs.col, &parts, sa.col, s);
@@ -119,8 +131,44 @@ pub fn generate(tier: &str, seed: u64) -> Vec<Rec> {
         ps.extend(extra);
         out.push(Rec::new(code, ps, vs));
     }
+    // split / merge with parts of DIFFERENT limb counts (the bound of one part must not be taken for another)
+    let reps2 = if tier == "thorough" { 600 } else { 120 };
+    for it in 0..reps2 {
+        let code = 9023 + (it % 2) as i64;
+        let be = rng.range(1, 4) as i128;
+        let n = 1usize << rng.range(0, 3);
+        let ratio = 1usize << rng.range(1, 3);
+        let mk = |rng: &mut Rng, n: usize| { let cols = rng.range(1, 3) as usize; let max = rng.range(2, 5) as usize; let size = rng.range(1, max as i64) as usize; let col = rng.below(cols as u64) as usize; (n, cols, size, max, col) };
+        let (big, small) = (mk(&mut rng, n * ratio), mk(&mut rng, n));
+        let sizes: Vec<i128> = (0..ratio).map(|_| rng.range(1, small.3 as i64) as i128).collect();
+        let (rs, sa) = if code == 9023 { (small, big) } else { (big, small) };
+        let mut vs = vec![words(&mut rng, big.0 * big.1 * big.3)];
+        for _ in 0..ratio { vs.push(words(&mut rng, small.0 * small.1 * small.3)); }
+        let mut ps = vec![be];
+        for s in [rs, sa, small] { ps.extend([s.0 as i128, s.1 as i128, s.2 as i128, s.3 as i128, s.4 as i128]); }
+        ps.extend(sizes);
+        out.push(Rec::new(code, ps, vs));
+    }
     c09_big::generate(tier, &mut rng, &mut out);
     out
+}
+
+/// automorphisms and rotations at large ring degrees (2^13..2^16), Galois elements of both residues mod 4: used by C10 as
+/// flag-only cross-backend records (the list-based model is quadratic in N, so these are not part of C09's own stream)
+pub fn generate_large(tier: &str, rng: &mut Rng, out: &mut Vec<Rec>) {
+    for logn in 13..=16u32 {
+        let n = 1usize << logn;
+        for (k, g) in [-1i64, 3, 5, -5, 7, (2 * n as i64) - 1, n as i64 + 1, n as i64 - 1].iter().enumerate() {
+            if tier != "thorough" && (k + logn as usize) % 2 == 1 && logn != 16 { continue; }
+            for code in [9018i64, 9019, 9014] {
+                let s = (n, 1usize, 1usize, 1usize, 0usize);
+                let mut ps = vec![0i128];
+                for sh in [s, s, s] { ps.extend([sh.0 as i128, sh.1 as i128, sh.2 as i128, sh.3 as i128, sh.4 as i128]); }
+                ps.extend([*g as i128, 0]);
+                out.push(Rec::new(code, ps, vec![words(rng, n), words(rng, n), words(rng, n)]));
+            }
+        }
+    }
 }
 
 fn main() { poulpy_verif_harness::run_main(generate, exec) }
